@@ -74,8 +74,8 @@ without arguments is the regression over all filed seeds.
 Rounds: the suffix letter orders the seeds of one property (a..f = rounds 1..6 up to a lag of one for five properties that skipped a
 round; from round 7 on meta.json carries the round). The last column says whether the tier as it stood caught the seed. Per round,
 seeds caught by SOME registered quick check without any change to the framework (from round 7: by any check; before: by the property's own): %s. The misses are what drove the systematic families of section 12: every miss was
-turned into a dimension of a product (not into a copy of the seed's input), and every filed seed is caught by the current
-quick tier of its property.
+turned into a dimension of a product (not into a copy of the seed's input), and every filed seed except C12l (round 14; see its row) is caught by the current
+quick tier of its property or of the neighbouring property named in its row.
 
 | seed | what it needs to manifest | caught by | check changed because of this seed? |
 |---|---|---|---|
